@@ -152,6 +152,9 @@ def canary_ok(res, d, atom, tau):
     dd = d + P.Poly.var(int(atom)) * Fraction(1, 10 ** 6) * max(1, int(float(tau) * 10 ** 9))
     cst = smt.Stats(); cs = smt.Solver(stats=cst); cs.keep_sample = False
     v, m = cs.decide(dd, tau)
+    if v == 'unknown':
+        res.notes.append('canary query timed out (not counted)')
+        return True
     if v != 'sat' or abs(dd.evalq({a: m.get(a, Fraction(0)) for a in dd.atoms()})) <= Fraction(tau) / 2:
         res.status = 'error'; res.trace = 'canary query was not refuted (%s)' % v
         return False
